@@ -37,12 +37,12 @@ Req ==
     LET q == Q(R) IN
     /\ nserved' = nserved + (IF R.served THEN 1 ELSE 0)
     /\ IF q \notin Requests THEN Bad("request-outside-lattice")
-       ELSE IF R.served /\ ~Admit(q) THEN Bad("served-not-admitted:" \o q.rpc \o ":" \o WhyNot(q))
+       ELSE IF R.served /\ ~Admit(q) THEN Bad("not-admitted:" \o q.rpc \o ":" \o WhyNot(q))
        ELSE IF R.served /\ (R.ncalls # 1 \/ Asked(R) # KeyTerm(q))
-         THEN Bad("served-key-of-other-entity:" \o q.rpc \o ":asked=" \o R.asked.m)
-       ELSE IF R.served /\ R.keyfrom # "engine" THEN Bad("served-key-not-from-engine:" \o q.rpc)
+         THEN Bad("key-of-other-entity:" \o q.rpc)
+       ELSE IF R.served /\ R.keyfrom # "engine" THEN Bad("key-not-from-engine:" \o q.rpc)
        ELSE /\ nbad' = nbad
-            /\ IF ~R.served /\ R.ncalls # 0 THEN Drift("rejected-after-asking-engine:" \o q.rpc)
+            /\ IF ~R.served /\ R.ncalls # 0 THEN Drift("rejected-after-asking:" \o q.rpc)
                ELSE IF R.served # (R.model = "served") THEN Drift("model-outcome-differs:" \o q.rpc)
                ELSE TRUE
 
